@@ -242,7 +242,38 @@ func c03Random(c *fw.Case, rng *rand.Rand) {
 	if rng.Intn(2) == 0 {
 		o.LowCard = 1 + rng.Intn(4)
 	}
-	root, err := model.MakeRoot(rng, o, 4, true)
+	f := model.GenFrame(rng, o)
+	if rng.Intn(12) == 0 && rows >= 20 {
+		// an enum key column at the limits of its code space: 254 or 255 distinct values (declared or derived), with nulls
+		card := 254 + rng.Intn(2)
+		if rows < card {
+			card = rows
+		}
+		ec := model.NewCol("ebig", model.KEnum, rows)
+		ec.EnumKnown = true
+		vals := make([]string, card)
+		for i := range vals {
+			vals[i] = fmt.Sprintf("v%03d", (i*37)%card)
+		}
+		for i := range ec.S {
+			switch {
+			case i < card:
+				ec.S[i] = model.StrP(vals[i]) // every value occurs
+			case rng.Intn(5) > 0:
+				ec.S[i] = model.StrP(vals[rng.Intn(card)])
+			}
+		}
+		rng.Shuffle(rows, func(i, j int) { ec.S[i], ec.S[j] = ec.S[j], ec.S[i] })
+		if rows > card {
+			ec.S[rng.Intn(rows)] = nil
+		}
+		if rng.Intn(2) == 0 {
+			ec.EnumVals = vals
+		}
+		f.Cols = append(f.Cols, ec)
+		c.Count("frames_with_enum_column_of_254_or_255_values", 1)
+	}
+	root, err := model.MakeRootFrom(rng, f, 4, true)
 	if err != nil {
 		c.Count("root_build_failed", 1)
 		return
